@@ -179,3 +179,148 @@ Section ExplodeGen.
         intro Hks. rewrite Forall_forall in Hhead. apply (Hhead jt Hjt). cbn [snd]. split; assumption.
   Qed.
 End ExplodeGen.
+
+(* ================================================================== *)
+(* 3. small facts about the boolean domain tests and lookups           *)
+(* ================================================================== *)
+Lemma mem_in k l : mem k l = true <-> In k l.
+Proof.
+  unfold mem. rewrite existsb_exists. split.
+  - intros (x & Hx & E). apply str_eqb_eq in E. subst. exact Hx.
+  - intros H. exists k. split; [exact H | apply str_eqb_refl].
+Qed.
+
+Lemma mem_false k l : mem k l = false <-> ~ In k l.
+Proof. rewrite <- mem_in. destruct (mem k l); split; intros H; try congruence; try discriminate. exfalso. apply H. reflexivity. Qed.
+
+Lemma nodupb_NoDup l : nodupb l = true -> NoDup l.
+Proof.
+  induction l as [|k r IH]; intros H; [constructor|].
+  cbn [nodupb] in H. apply andb_true_iff in H as [H1 H2]. apply negb_true_iff in H1.
+  constructor; [apply mem_false, H1 | apply IH, H2].
+Qed.
+
+Lemma filter_nil_forall {A : Type} (p : A -> bool) l : filter p l = [] -> forall x, In x l -> p x = false.
+Proof.
+  induction l as [|a r IH]; intros H x Hx; [destruct Hx|]. cbn [filter] in H.
+  destruct (p a) eqn:E; [discriminate|]. destruct Hx as [<-|Hx]; [exact E | apply IH; assumption].
+Qed.
+
+Lemma pairwise_disjoint_count k ls : pairwise_disjointb ls = true -> length (filter (mem k) ls) <= 1.
+Proof.
+  induction ls as [|a r IH]; intros H; [cbn; lia|].
+  cbn [pairwise_disjointb] in H. apply andb_true_iff in H as [H1 H2]. cbn [filter].
+  destruct (mem k a) eqn:E; [|apply IH, H2].
+  assert (filter (mem k) r = []) as ->; [|cbn; lia].
+  apply mem_in in E. induction r as [|b r' IHr]; [reflexivity|].
+  cbn [forallb] in H1. apply andb_true_iff in H1 as [Hab H1]. cbn [filter].
+  cbn [pairwise_disjointb] in H2. apply andb_true_iff in H2 as [_ H2'].
+  unfold disjointb in Hab. rewrite forallb_forall in Hab. specialize (Hab k E). apply negb_true_iff in Hab.
+  rewrite Hab. apply IHr; [exact H1 | exact H2' | intros _; apply IH; exact H2' ].
+Qed.
+
+Lemma all_some_Forall2 {A B : Type} (f : A -> option B) l r :
+  all_some (map f l) = Some r -> Forall2 (fun a b => f a = Some b) l r.
+Proof.
+  revert r. induction l as [|a t IH]; intros r H; cbn [map all_some] in H.
+  - injection H as <-. constructor.
+  - destruct (f a) as [b|] eqn:E; [|discriminate].
+    destruct (all_some (map f t)) as [t'|]; [|discriminate]. injection H as <-.
+    constructor; [exact E | apply IH; reflexivity].
+Qed.
+
+Lemma filter_count_le {A B : Type} (p : A -> bool) (q : B -> bool) (R : A -> B -> Prop) l r :
+  Forall2 R l r -> (forall a b, R a b -> p a = true -> q b = true) ->
+  length (filter p l) <= length (filter q r).
+Proof.
+  intros HF Himp. induction HF as [|a b l r Hab HF IH]; [cbn; lia|].
+  cbn [filter]. destruct (p a) eqn:E.
+  - rewrite (Himp a b Hab E). cbn [length]. lia.
+  - destruct (q b); cbn [length]; lia.
+Qed.
+
+Lemma lookup_first_all_none k X : (forall s, In s X -> lookup_entry k s = None) -> lookup_first k X = None.
+Proof.
+  induction X as [|s r IH]; intros H; [reflexivity|]. cbn [lookup_first].
+  rewrite (H s (or_introl eq_refl)). apply IH. intros s' Hs'. apply H. right. exact Hs'.
+Qed.
+
+Lemma lookup_first_unique k X1 s X2 :
+  (forall s', In s' (X1 ++ X2) -> lookup_entry k s' = None) ->
+  lookup_first k (X1 ++ s :: X2) = lookup_entry k s.
+Proof.
+  intros H. rewrite lookup_first_app. rewrite lookup_first_all_none by (intros s' Hs'; apply H, in_or_app; left; exact Hs').
+  cbn [lookup_first]. destruct (lookup_entry k s); [reflexivity|].
+  apply lookup_first_all_none. intros s' Hs'. apply H, in_or_app. right. exact Hs'.
+Qed.
+
+Lemma vlookup_concat_all_none k (X : list (list (str * value))) :
+  (forall s, In s X -> vlookup k s = None) -> vlookup k (concat X) = None.
+Proof.
+  induction X as [|s r IH]; intros H; [reflexivity|]. cbn [concat]. rewrite vlookup_app.
+  rewrite (H s (or_introl eq_refl)). apply IH. intros s' Hs'. apply H. right. exact Hs'.
+Qed.
+
+Lemma vlookup_concat_unique k X1 s (X2 : list (list (str * value))) :
+  (forall s', In s' (X1 ++ X2) -> vlookup k s' = None) ->
+  vlookup k (concat (X1 ++ s :: X2)) = vlookup k s.
+Proof.
+  intros H. rewrite concat_app, vlookup_app.
+  rewrite vlookup_concat_all_none by (intros s' Hs'; apply H, in_or_app; left; exact Hs').
+  cbn [concat]. rewrite vlookup_app. destruct (vlookup k s); [reflexivity|].
+  apply vlookup_concat_all_none. intros s' Hs'. apply H, in_or_app. right. exact Hs'.
+Qed.
+
+Lemma vlookup_valued k es : vlookup k (map entry_value es) = option_map value_of (lookup_entry k es).
+Proof. apply vlookup_entry_value. Qed.
+
+Lemma value_of_map a es : value_of (Mp a es) = VM (map entry_value es).
+Proof. reflexivity. Qed.
+
+Lemma vlookup_in k (es : list (str * value)) v : vlookup k es = Some v -> In k (map fst es).
+Proof.
+  induction es as [|[k' v'] r IH]; cbn [vlookup map fst]; [discriminate|].
+  destruct (str_eqb k k') eqn:E; intros H.
+  - apply str_eqb_eq in E. subst. left. reflexivity.
+  - right. apply IH, H.
+Qed.
+
+Lemma vlookup_none_notin k (es : list (str * value)) : vlookup k es = None -> ~ In k (map fst es).
+Proof.
+  induction es as [|[k' v'] r IH]; cbn [vlookup map fst]; [intros _ []|].
+  destruct (str_eqb k k') eqn:E; intros H; [discriminate|].
+  intros [Hk|Hk]; [subst; rewrite str_eqb_refl in E; discriminate | exact (IH H Hk)].
+Qed.
+
+(* splitting a map at its merge key *)
+Lemma before_merge_split es pre mv :
+  before_merge es = Some (pre, mv) ->
+  exists k post, es = pre ++ (k, mv) :: post /\ is_merge k = true /\ (forall kv, In kv pre -> is_merge (fst kv) = false).
+Proof.
+  revert pre. induction es as [|[k v] r IH]; intros pre H; cbn [before_merge] in H; [discriminate|].
+  destruct (is_merge k) eqn:E.
+  - injection H as <- <-. exists k, r. split; [reflexivity|]. split; [exact E | intros kv []].
+  - destruct (before_merge r) as [[pre' mv']|] eqn:Er; [|discriminate]. injection H as <- <-.
+    destruct (IH pre' eq_refl) as (k' & post & -> & Hk' & Hpre). exists k', post.
+    split; [reflexivity|]. split; [exact Hk'|]. intros kv [<-|Hkv]; [exact E | apply Hpre, Hkv].
+Qed.
+
+Lemma before_merge_none es : before_merge es = None -> has_merge es = false.
+Proof.
+  induction es as [|[k v] r IH]; intros H; [reflexivity|]. cbn [before_merge] in H.
+  destruct (is_merge k) eqn:E; [discriminate|].
+  destruct (before_merge r) as [[? ?]|]; [discriminate|].
+  unfold has_merge. cbn [existsb fst]. rewrite E. apply IH. reflexivity.
+Qed.
+
+Lemma is_merge_eq k : is_merge k = true -> k = merge_key.
+Proof. unfold is_merge. apply str_eqb_eq. Qed.
+
+Lemma alias_targets_items items ts : all_some (map alias_target items) = Some ts -> items = map Al ts.
+Proof.
+  revert ts. induction items as [|x r IH]; intros ts H; cbn [map all_some] in H.
+  - injection H as <-. reflexivity.
+  - destruct x as [a s|a l|a es|t]; cbn [alias_target] in H; try discriminate.
+    destruct (all_some (map alias_target r)) as [ts'|]; [|discriminate]. injection H as <-.
+    cbn [map]. f_equal. apply IH. reflexivity.
+Qed.
